@@ -160,79 +160,95 @@ type loaderError struct{ token string }
 
 func (e *loaderError) Error() string { return "injected loader error " + e.token }
 
-//go:norace
+// the stubs are methods (not closures): //go:norace does not extend to
+// closures, and the harness's own bookkeeping must stay invisible to the
+// race detector.
+type loaderStub struct {
+	rd *RunData
+	n  int
+}
+
 func makeLoader(rd *RunData) func(ctx context.Context, key K) (theine.Loaded[V], error) {
-	n := 0
-	return func(ctx context.Context, key K) (theine.Loaded[V], error) {
-		n++
-		id := n
-		st := &rd.Sc.Stubs
-		r := simrt.MiscRng()
-		rec := LdRec{Key: key, Start: simrt.Stamp(), StartT: simrt.Now(), Task: simrt.CurID()}
-		rec.Val = valLoaderBit | int64(key)<<32 | int64(id)<<8
-		rec.Token = fmt.Sprintf("L%d", id)
-		idx := len(rd.Loader)
-		rd.Loader = append(rd.Loader, rec)
-		simrt.Yield(simrt.KStub)
-		if st.LoaderSlowPct > 0 && r.Intn(100) < st.LoaderSlowPct {
-			simrt.Fault("loader.slow")
-			simrt.Sleep(st.LoaderSlowDur)
-		}
-		x := r.Intn(100)
-		outcome := "ok"
-		switch {
-		case x < st.LoaderErrPct:
-			outcome = "err"
-		case x < st.LoaderErrPct+st.LoaderPanicPct:
-			outcome = "panic"
-		case x < st.LoaderErrPct+st.LoaderPanicPct+st.LoaderExitPct:
-			outcome = "exit"
-		}
-		cost := int64(1)
-		if st.LoaderCostMax > 1 {
-			cost = 1 + int64(r.Intn(int(st.LoaderCostMax)))
-		}
-		if st.LoaderOverPct > 0 && r.Intn(100) < st.LoaderOverPct {
-			cost = rd.Sc.Cache.MaxSize + 1 + int64(r.Intn(3))
-			simrt.Fault("loader.oversize")
-		}
-		if rd.Sc.Cache.CostFn && r.Intn(2) == 0 {
-			cost = 0
-		}
-		var ttl int64
-		if st.LoaderTTLPct > 0 && r.Intn(100) < st.LoaderTTLPct {
-			ttl = st.LoaderTTL
-		}
-		simrt.Yield(simrt.KStub)
-		rec = rd.Loader[idx]
-		rec.End, rec.EndT, rec.Outcome, rec.Cost, rec.TTL = simrt.Stamp(), simrt.Now(), outcome, cost, ttl
-		rd.Loader[idx] = rec
-		switch outcome {
-		case "err":
-			simrt.Fault("loader.error")
-			return theine.Loaded[V]{}, &loaderError{rec.Token}
-		case "panic":
-			simrt.Fault("loader.panic")
-			panic(loaderPanic{rec.Token})
-		case "exit":
-			simrt.Fault("loader.goexit")
-			runtime.Goexit()
-		}
-		return theine.Loaded[V]{Value: rec.Val, Cost: cost, TTL: time.Duration(ttl)}, nil
-	}
+	return (&loaderStub{rd: rd}).load
 }
 
 //go:norace
+func (ls *loaderStub) load(ctx context.Context, key K) (theine.Loaded[V], error) {
+	rd := ls.rd
+
+	ls.n++
+	id := ls.n
+	st := &rd.Sc.Stubs
+	r := simrt.MiscRng()
+	rec := LdRec{Key: key, Start: simrt.Stamp(), StartT: simrt.Now(), Task: simrt.CurID()}
+	rec.Val = valLoaderBit | int64(key)<<32 | int64(id)<<8
+	rec.Token = fmt.Sprintf("L%d", id)
+	idx := len(rd.Loader)
+	rd.Loader = append(rd.Loader, rec)
+	simrt.Yield(simrt.KStub)
+	if st.LoaderSlowPct > 0 && r.Intn(100) < st.LoaderSlowPct {
+		simrt.Fault("loader.slow")
+		simrt.Sleep(st.LoaderSlowDur)
+	}
+	x := r.Intn(100)
+	outcome := "ok"
+	switch {
+	case x < st.LoaderErrPct:
+		outcome = "err"
+	case x < st.LoaderErrPct+st.LoaderPanicPct:
+		outcome = "panic"
+	case x < st.LoaderErrPct+st.LoaderPanicPct+st.LoaderExitPct:
+		outcome = "exit"
+	}
+	cost := int64(1)
+	if st.LoaderCostMax > 1 {
+		cost = 1 + int64(r.Intn(int(st.LoaderCostMax)))
+	}
+	if st.LoaderOverPct > 0 && r.Intn(100) < st.LoaderOverPct {
+		cost = rd.Sc.Cache.MaxSize + 1 + int64(r.Intn(3))
+		simrt.Fault("loader.oversize")
+	}
+	if rd.Sc.Cache.CostFn && r.Intn(2) == 0 {
+		cost = 0
+	}
+	var ttl int64
+	if st.LoaderTTLPct > 0 && r.Intn(100) < st.LoaderTTLPct {
+		ttl = st.LoaderTTL
+	}
+	simrt.Yield(simrt.KStub)
+	rec = rd.Loader[idx]
+	rec.End, rec.EndT, rec.Outcome, rec.Cost, rec.TTL = simrt.Stamp(), simrt.Now(), outcome, cost, ttl
+	rd.Loader[idx] = rec
+	switch outcome {
+	case "err":
+		simrt.Fault("loader.error")
+		return theine.Loaded[V]{}, &loaderError{rec.Token}
+	case "panic":
+		simrt.Fault("loader.panic")
+		panic(loaderPanic{rec.Token})
+	case "exit":
+		simrt.Fault("loader.goexit")
+		runtime.Goexit()
+	}
+	return theine.Loaded[V]{Value: rec.Val, Cost: cost, TTL: time.Duration(ttl)}, nil
+}
+
+type listenerStub struct{ rd *RunData }
+
 func makeListener(rd *RunData) func(k K, v V, reason theine.RemoveReason) {
-	return func(k K, v V, reason theine.RemoveReason) {
-		rd.Listener = append(rd.Listener, LRec{Seq: simrt.Stamp(), T: simrt.Now(), Key: k, Val: v, Reason: int(reason), Task: simrt.CurID()})
-		st := &rd.Sc.Stubs
-		if st.ListenerSlowPct > 0 && simrt.MiscRng().Intn(100) < st.ListenerSlowPct {
-			simrt.Fault("listener.slow")
-			simrt.Sleep(st.ListenerSlowDur)
-		} else {
-			simrt.Yield(simrt.KStub)
-		}
+	return (&listenerStub{rd}).call
+}
+
+//go:norace
+func (l *listenerStub) call(k K, v V, reason theine.RemoveReason) {
+	rd := l.rd
+	rd.Listener = append(rd.Listener, LRec{Seq: simrt.Stamp(), T: simrt.Now(), Key: k, Val: v, Reason: int(reason), Task: simrt.CurID()})
+	st := &rd.Sc.Stubs
+	if st.ListenerSlowPct > 0 && simrt.MiscRng().Intn(100) < st.ListenerSlowPct {
+		simrt.Fault("listener.slow")
+		simrt.Sleep(st.ListenerSlowDur)
+	} else {
+		simrt.Yield(simrt.KStub)
 	}
 }
 
@@ -423,13 +439,11 @@ func (env *simEnv) exec(client, idx int, op Op) (rec Rec) {
 		}
 		rec.N = n
 	case "waitidle":
-		simrt.WaitIdle()
+		simrt.WaitQuiescent()
 	case "snap":
 		env.snap(op.Label)
 	case "save":
-		if env.disk == nil {
-			env.disk = newSimDisk()
-		}
+		env.disk = newSimDisk()
 		w := env.disk.writer(op.N)
 		if err := api.save(uint64(op.Key), w); err != nil {
 			rec.Err = err.Error()
